@@ -210,8 +210,11 @@ func (vc *VC) oblige(class, detail string, guard, cond Term, pos token.Pos, cons
 	}
 	vc.lastEv = &Event{Oblig: true, Name: name, Class: class, Guard: guard, Cond: cond, Pos: pos, Construct: construct, Quant: vc.quantCtx}
 	vc.events = append(vc.events, vc.lastEv)
-	// after the check, execution continues only if it held
-	vc.events = append(vc.events, &Event{Guard: guard, Cond: cond})
+	// after the check, execution continues only if it held (a wrapped integer result does not stop
+	// the program, so an overflow obligation constrains nothing afterwards)
+	if class != "overflow" {
+		vc.events = append(vc.events, &Event{Guard: guard, Cond: cond})
+	}
 }
 
 // ---------------------------------------------------------------------------
